@@ -164,7 +164,12 @@ impl FsCommand {
     }
 
     fn hardlink(target: &Path, link: &Path) -> io::Result<()> {
-        fs::hard_link(target.to_path_buf(), link.to_path_buf()).map_err(|e| {
+        // If the retained path is a symbolic link (possible with `--symbolic-links`),
+        // link to the file it points to. A hard link to the symbolic link itself would only
+        // duplicate the link, and a relative one would dangle in a different directory.
+        let target_buf = target.to_path_buf();
+        let target_buf = fs::canonicalize(&target_buf).unwrap_or(target_buf);
+        fs::hard_link(target_buf, link.to_path_buf()).map_err(|e| {
             io::Error::new(
                 e.kind(),
                 format!(
